@@ -120,3 +120,53 @@ Example C01_source_run_count_witness :
   ME.run_count [ME.mk_listed 1 MFl.Matches (MC.RCount 1) None; ME.mk_listed 2 (MFl.Mismatch MFl.MPartition) (MC.RCount 1) None;
                 ME.mk_listed 3 (MFl.Mismatch MFl.MDefaultFilter) (MC.RCount 1) None] = 1.
 Proof. vm_compute. reflexivity. Qed.
+
+(* ---- the stream TestRunnerInner::execute puts in front of the scheduler (C02 / C14 / C08) *)
+
+(* C02 "unselected tests never run" / C14 (a slot is handed out with the scheduler's context): the filter_map stage in
+   front of future_queue_grouped. For every entry of the priority queue: a test whose filter match is a Mismatch makes
+   the closure send ExecutorEvent::Skipped and return None -- the scheduler never sees it, so it gets neither a
+   FutureQueueContext (slot) nor an attempt --, a matching test is handed on unchanged with no event. This is the
+   [SrcUnsel] / [SrcSel] distinction of Model/Run.v's source stream. Dropping the stage (skipped tests then reach the
+   scheduler) removes the closure the request names. *)
+Theorem C14_source_execute_filter_stage :
+  forall rt nc l tok,
+    G.execute_filter_stage (entry_view l tok) =
+    ((if ME.entry_skipped (ME.stream_entry rt nc l) then [SLs.skipped] else []),
+     (match ME.entry_item (ME.stream_entry rt nc l) with Some _ => Some (entry_view l tok) | None => None end)).
+Proof. exact gen_execute_filter_stage_is_model. Qed.
+Print Assumptions C14_source_execute_filter_stage.
+
+Theorem C02_source_execute_filter_stage :
+  forall l tok,
+    snd (G.execute_filter_stage (entry_view l tok)) = None <-> ME.is_selected l = false.
+Proof.
+  intros l tok. rewrite (gen_execute_filter_stage_is_model 1 1 l tok). cbn [snd].
+  unfold ME.stream_entry. destruct (ME.is_selected l); cbn [ME.entry_item]; split; intros; congruence.
+Qed.
+Print Assumptions C02_source_execute_filter_stage.
+
+(* C08 "the sum of their threads-required (each capped at the test-thread count)": the item handed to
+   future_queue_grouped for a selected test has weight = ThreadsRequired::compute(test_threads) -- NOT capped by the
+   test group's max-threads; capping (and the group accounting) is the queue's, Model/FutureQueue.v -- and the test's own
+   group. Pre-capping the weight at the group's max-threads falsifies it. *)
+Theorem C08_source_execute_item :
+  forall rt nc l it,
+    ME.entry_item (ME.stream_entry rt nc l) = Some it ->
+    MQ.it_w it = G.execute_weight (tr_of_model (ME.l_threads l)) rt (group_of_model (ME.l_group l)) nc /\
+    MQ.it_grp it = G.execute_group (tr_of_model (ME.l_threads l)) rt (group_of_model (ME.l_group l)).
+Proof. exact gen_execute_item_is_model. Qed.
+Print Assumptions C08_source_execute_item.
+
+Theorem C08_stream_weight_uncapped :
+  forall rt nc l it,
+    ME.entry_item (ME.stream_entry rt nc l) = Some it ->
+    MQ.it_w it = MC.threads_required_weight (ME.l_threads l) rt nc /\ MQ.it_grp it = ME.l_group l /\
+    MQ.it_id it = ME.l_id l.
+Proof. exact PE.stream_weight_uncapped. Qed.
+Print Assumptions C08_stream_weight_uncapped.
+
+Example C08_source_execute_item_witness :
+  exists it, ME.entry_item (ME.stream_entry 4 8 (ME.mk_listed 7 MFl.Matches (MC.RCount 3) (Some 1))) = Some it /\
+             MQ.it_w it = 3.
+Proof. eexists. vm_compute. split; reflexivity. Qed.
